@@ -329,6 +329,8 @@ def drive(prop, tier, base_seed, nruns, budget_s, workers=None, sweep=True):
     t0 = time.time()
     module = _import_check(prop)
     workers = workers or int(os.environ.get('VERIF_WORKERS', '16'))
+    scratch = '/dev/shm/txdbus-sim-%d' % os.getpid()
+    os.environ['VERIF_SCRATCH'] = scratch
     deadline = t0 + budget_s
     ctx = multiprocessing.get_context('fork')
     total = {
@@ -458,8 +460,18 @@ def write_evidence(module, tier, base_seed, total, nviol):
 
 
 def check_main(prop, tier, replay=None):
-    if replay:
-        return replay_file(prop, replay)
+    scratch = '/dev/shm/txdbus-sim-%d' % os.getpid()
+    os.environ['VERIF_SCRATCH'] = scratch
+    try:
+        if replay:
+            return replay_file(prop, replay)
+        return _check_main(prop, tier)
+    finally:
+        import shutil
+        shutil.rmtree(scratch, ignore_errors=True)
+
+
+def _check_main(prop, tier):
     base_seed = int(os.environ.get('VERIF_SEED', '0') or 0)
     module = _import_check(prop)
     if tier == 'quick':
